@@ -33,12 +33,12 @@ func getCachedPath(expr string) []string {
 	// Not in cache, compute it
 	parts := splitPathImpl(expr)
 
-	// Cache if under limit
+	// Cache if under limit (the size is read under the lock: other goroutines write the map)
+	pathCache.Lock()
 	if len(pathCache.m) < pathCacheLimit {
-		pathCache.Lock()
 		pathCache.m[expr] = parts
-		pathCache.Unlock()
 	}
+	pathCache.Unlock()
 
 	return parts
 }
